@@ -218,14 +218,15 @@ func (h *Sources) Reset() {
 
 // Always returns a non-nil map, whether or not a history source is found.
 func (h *Sources) getHistoryLineChanges() map[int]*lineHistory {
-	history := h.Current()
-	if history == nil {
-		return map[int]*lineHistory{}
-	}
-
 	// Get the state changes of all history lines
 	// for the current history source.
-	source := h.names[h.sourcePos]
+	// Without any source, the line being typed is
+	// still undone: its changes are kept under no name.
+	var source string
+
+	if h.Current() != nil {
+		source = h.names[h.sourcePos]
+	}
 
 	hist := h.lines[source]
 	if hist == nil {
